@@ -1691,6 +1691,8 @@ class WassersteinVectorizer(BaseEstimator, TransformerMixin):
                 else:
                     self.reference_distribution_ = reference_distribution
                     self.reference_vectors_ = reference_vectors
+                    lot_dimension = reference_vectors.shape[0] * vectors.shape[1]
+                    block_size = max(1, memory_size // (lot_dimension * 8))
 
                 if self.method == "LOT_exact":
                     self.embedding_, self.components_ = lot_vectors_sparse(
@@ -2392,6 +2394,8 @@ class SinkhornVectorizer(BaseEstimator, TransformerMixin):
             else:
                 self.reference_distribution_ = reference_distribution
                 self.reference_vectors_ = reference_vectors
+                lot_dimension = reference_vectors.shape[0] * vectors.shape[1]
+                block_size = max(1, memory_size // (lot_dimension * 8))
 
             self.embedding_, self.components_ = sinkhorn_vectors_sparse(
                 vectors,
@@ -2907,6 +2911,8 @@ class WassersteinVectorizerOld(BaseEstimator, TransformerMixin):
             else:
                 self.reference_distribution_ = reference_distribution
                 self.reference_vectors_ = reference_vectors
+                lot_dimension = reference_vectors.shape[0] * vectors.shape[1]
+                block_size = max(1, memory_size // (lot_dimension * 8))
 
             self.embedding_, self.components_ = lot_vectors_sparse(
                 vectors,
